@@ -847,6 +847,7 @@ class DigitalWaveform(Generic[TDigitalState]):
 
         if timing is None:
             timing = Timing.empty
+        self._validate_timing(timing)
         self._timing = timing
 
         self._signals = None
@@ -1003,6 +1004,10 @@ class DigitalWaveform(Generic[TDigitalState]):
         if self._start_index + value > self.capacity:
             raise create_start_index_or_sample_count_too_large_error(
                 self._start_index, value, "capacity", self.capacity
+            )
+        if self._timing._timestamps is not None and value != len(self._timing._timestamps):
+            raise create_irregular_timestamp_count_mismatch_error(
+                len(self._timing._timestamps), "number of samples in the waveform", value
             )
         self._sample_count = value
 
@@ -1270,11 +1275,6 @@ class DigitalWaveform(Generic[TDigitalState]):
         else:
             raise invalid_array_ndim("input array", "one or two-dimensional array", array.ndim)
 
-        if self._timing._timestamps is not None and len(array) != len(self._timing._timestamps):
-            raise create_irregular_timestamp_count_mismatch_error(
-                len(self._timing._timestamps), "input array length", len(array), reversed=True
-            )
-
         start_index = arg_to_uint("start index", start_index, 0)
         if start_index > len(array):
             raise create_start_index_too_large_error(
@@ -1284,6 +1284,10 @@ class DigitalWaveform(Generic[TDigitalState]):
         if start_index + sample_count > len(array):
             raise create_start_index_or_sample_count_too_large_error(
                 start_index, sample_count, "input array length", len(array)
+            )
+        if self._timing._timestamps is not None and sample_count != len(self._timing._timestamps):
+            raise create_irregular_timestamp_count_mismatch_error(
+                len(self._timing._timestamps), "input array length", sample_count, reversed=True
             )
         signal_count = arg_to_uint("signal count", signal_count, array_signal_count)
 
